@@ -164,8 +164,13 @@ Proof.
   intros. unfold mon_step. cbv zeta. rewrite mview_m_wait, !mview_chk. apply mview_close.
 Qed.
 
-Lemma mview_TRet_none : forall m fds clk, mview (mon_step m (TRet None fds clk)) = mview m.
-Proof. intros. unfold mon_step. cbv zeta. rewrite mview_m_iter, mview_chk, mview_m_wait. reflexivity. Qed.
+Lemma mview_TRet_none : forall m fds clk,
+  mview (mon_step m (TRet None fds clk)) = mview (m_loop m (a_main m) (a_quit m) clk false).
+Proof.
+  intros. unfold mon_step. cbv zeta. rewrite mview_m_iter.
+  unfold mview. cbn [a_fd a_fh a_ck a_tm a_exp a_tk a_ev a_evp a_rw a_main a_quit a_clk m_loop].
+  autorewrite with monp. reflexivity.
+Qed.
 
 Lemma mview_TRet_some : forall m n fds clk,
   mview (mon_step m (TRet (Some n) fds clk)) = mview (m_loop m (a_main m) (a_quit m) clk false).
@@ -307,11 +312,11 @@ Proof.
   repeat gstep; try assumption; autorewrite with monp. rewrite Q. reflexivity.
 Qed.
 
-Lemma good_TRet_none : forall m fds clk, Goodm m -> clk = a_clk m -> Goodm (mon_step m (TRet None fds clk)).
+Lemma good_TRet_none : forall m fds clk, Goodm m -> a_clk m <= clk -> Goodm (mon_step m (TRet None fds clk)).
 Proof.
   intros m fds clk G C. unfold mon_step. cbv zeta.
   repeat gstep; try assumption.
-  cbn [a_clk m_wait]. subst clk. apply Z.eqb_refl.
+  cbn [a_clk m_wait]. apply Z.leb_le. assumption.
 Qed.
 
 Lemma good_TRet_some : forall m n fds clk, Goodm m -> a_clk m <= clk ->
